@@ -68,10 +68,12 @@ def run_inspect(case, path):
             w.writerow(r)
     with open(path, 'r', encoding='utf-8') as f:
         cells = next(csv.reader(f), None)
+    with open(path, 'r', encoding='utf-8') as f:      # the text inspect's file-kind heuristic looks at (plain file reading)
+        sample_lines = f.read(8192).split('\n')
     from tally.commands.inspect import cmd_inspect
     from tally.parsers import auto_detect_csv_format
     buf, err = io.StringIO(), io.StringIO()
-    res = {'cells': cells}
+    res = {'cells': cells, 'sample_lines': sample_lines}
     # the public auto-detection entry point on the same file (what inspect is expected to report for a CSV file)
     try:
         sp = auto_detect_csv_format(path)
